@@ -16,7 +16,7 @@ macro_rules! push_rip {
         let rip = $self.reg_read_64(RIP)?;
         let rsp = $self.reg_read_64(RSP)?;
         $self.mem_write_64(rsp, rip)?;
-        $self.reg_write_64(RSP, rsp - 8)?;
+        $self.reg_write_64(RSP, rsp.wrapping_sub(8))?;
     }};
 }
 
